@@ -256,6 +256,46 @@ def outcome_key(o):
     return ("reject", o[1])
 
 
+def odd_mappings(config):
+    """Mappings of a result that do not behave like a plain mapping when
+    an absent key is looked up: m[absent] must raise KeyError and leave
+    the mapping as it was.  -> list of descriptions (empty = fine)."""
+    bad = []
+    seen = set()
+    probe = "zcv-absent-key"
+
+    def rec(v, path):
+        if id(v) in seen:
+            return
+        seen.add(id(v))
+        if isinstance(v, list):
+            for i, x in enumerate(v):
+                rec(x, path + "[%d]" % i)
+        elif isinstance(v, dict):
+            n = len(v)
+            try:
+                v[probe]
+                bad.append("%s: m[absent] returned a value" % path)
+            except KeyError:
+                pass
+            except Exception as e:  # noqa
+                bad.append("%s: m[absent] raised %s" % (path,
+                                                        type(e).__name__))
+            if len(v) != n or probe in v:
+                bad.append("%s: looking up an absent key changed the "
+                           "mapping" % path)
+                v.pop(probe, None)
+            for k, x in list(v.items()):
+                rec(x, path + "[%r]" % (k,))
+        elif is_wrapped(v):
+            rec(v.section, path + ".section")
+        elif hasattr(v, "getSectionAttributes"):
+            for a in v.getSectionAttributes():
+                rec(getattr(v, a, None), path + "." + a)
+    rec(config, "config")
+    return bad
+
+
 def poison(config):
     """Poison every list/dict reachable through getSectionAttributes()."""
     n = [0]
